@@ -1003,3 +1003,29 @@ MUTANTS += [
         (M, '                if "" in state.static:\n                    for rule in state.static[""].rules:\n                        if websocket == rule.websocket and (\n                            rule.methods is None or method in rule.methods\n                        ):\n                            if rule.strict_slashes:\n                                raise SlashRequired()\n                            else:\n                                return rule, values\n                        elif (\n                            not rule.strict_slashes\n                            and rule.methods is not None\n                            and method not in rule.methods\n                        ):\n                            have_match_for.update(rule.methods)\n                return None\n', '                slash_rules = state.static[""].rules if "" in state.static else []\n                for rule in slash_rules:\n                    method_allowed = rule.methods is None or method in rule.methods\n                    if websocket != rule.websocket or not method_allowed:\n                        if not method_allowed:\n                            have_match_for.update(rule.methods)\n                        continue\n                    if rule.strict_slashes:\n                        raise SlashRequired\n                    return rule, values\n                return None\n'),
     ]},
 ]
+
+
+# ======================================================================
+# the traversal of update() must not skip a successor that has transitions below it (a guard that skips leaf states only is harmless)
+
+_DYN_DESCENT = "            for _, new_state in state.dynamic:\n                _update_state(new_state)\n"
+_SORT_LINE = "            state.dynamic.sort(key=lambda entry: entry[0].weight)\n            for new_state in state.static.values():\n"
+_WORKLIST = (
+    "        pending = [state]\n"
+    "        while pending:\n"
+    "            current = pending.pop()\n"
+    "            current.dynamic.sort(key=lambda entry: entry[0].weight)\n"
+    "            pending.extend(current.static.values())\n"
+    "            pending.extend(target for _, target in current.dynamic)\n"
+)
+
+MUTANTS += [
+    {"name": "descent-only-into-states-with-dynamic-transitions", "expect": "R3.1", "edits": [(M, _DYN_DESCENT, "            for _, new_state in state.dynamic:\n                if new_state.dynamic:\n                    _update_state(new_state)\n")]},
+    {"name": "traversal-step-returns-early-without-dynamic", "expect": "R3.1", "edits": [(M, _SORT_LINE, "            if not state.dynamic:\n                return\n" + _SORT_LINE)]},
+    {"name": "worklist-static-successors-only-behind-dynamic", "expect": "R3.1", "edits": [(M, _UPDATE_BODY, _WORKLIST.replace("            pending.extend(current.static.values())\n", "            if current.dynamic:\n                pending.extend(current.static.values())\n"))]},
+]
+
+TWINS += [
+    {"name": "descent-skips-only-leaf-states", "edits": [(M, _DYN_DESCENT, "            for _, new_state in state.dynamic:\n                if new_state.dynamic or new_state.static:\n                    _update_state(new_state)\n")]},
+    {"name": "traversal-step-returns-early-on-leaf", "edits": [(M, _SORT_LINE, "            if not state.dynamic and len(state.static) == 0:\n                return\n" + _SORT_LINE)]},
+]
